@@ -235,3 +235,33 @@ def body_ctor(sel: int) -> bool:
     if same.to_dict() != dm.to_dict():
         return fail("from_pdgids and the name-based constructor differ")
     return True
+
+
+# ---- multiplicities where they are only counted: symbolic and unbounded -------------------------------------------------------------
+N_COUNTS = 4
+
+
+def body_counts(sel: int, m0: int, m1: int, m2: int) -> bool:
+    names = [["K+", "K-", "pi0"], ["pi+", "pi+x", "gamma"], ["a", "B", "A"], ["D*(2010)+", "D0", "D0bar"]][sel]
+    given = dict(zip(names, (m0, m1, m2)))
+    dd = DaughtersDict(dict(given))
+    exp = {k: v for k, v in given.items() if v > 0}
+    if dict(dd.items()) != exp:
+        return fail(f"DaughtersDict({given}) = {dict(dd.items())}")
+    total = sum(v for v in exp.values())
+    if dd.__len__() != total:
+        return fail(f"length {dd.__len__()} for multiplicities {given}")
+    other = DaughtersDict({names[0]: m1, "extra": m2})
+    s = dd + other
+    exp_sum = dict(exp)
+    for k, v in {names[0]: m1, "extra": m2}.items():
+        if v > 0:
+            exp_sum[k] = exp_sum.get(k, 0) + v
+    if dict(s.items()) != exp_sum or not isinstance(s, DaughtersDict):
+        return fail(f"sum {dict(s.items())} expected {exp_sum}")
+    dm = DecayMode(0.5, dict(given), model="PHSP")
+    if dm.__len__() != total or dict(dm.daughters.items()) != exp:
+        return fail("DecayMode length / daughters")
+    if dict(dd.items()) != exp:
+        return fail("operands modified by the sum")
+    return True
